@@ -357,7 +357,18 @@ type condFact struct {
 // factsAt computes, for every block of fn, the set of branch conditions whose value is
 // known on *every* path from the entry to that block (a forward must-analysis over
 // If edges). SSA values are immutable, so facts never need invalidation.
+var factsCache = map[*ssa.Function]map[*ssa.BasicBlock]map[condFact]bool{}
+
 func factsAt(fn *ssa.Function) map[*ssa.BasicBlock]map[condFact]bool {
+	if r, ok := factsCache[fn]; ok {
+		return r
+	}
+	r := factsAt1(fn)
+	factsCache[fn] = r
+	return r
+}
+
+func factsAt1(fn *ssa.Function) map[*ssa.BasicBlock]map[condFact]bool {
 	if fn.Blocks == nil {
 		return nil
 	}
@@ -413,7 +424,147 @@ func factsAt(fn *ssa.Function) map[*ssa.BasicBlock]map[condFact]bool {
 			}
 		}
 	}
+	for _, m := range in {
+		deriveFacts(m)
+	}
 	return in
+}
+
+// ---------------------------------------------------------------------------
+// derived facts: every recogniser sees a comparison in all its equivalent spellings
+// (a != b true  ==  a == b false  ==  b != a true ...), and a call of a trivial boolean
+// helper (`func isX(w) bool { _, ok := w.(*T); return ok }`) as the expression it returns.
+// Derived conditions are synthetic, interned SSA nodes: they never appear in a function body.
+
+type synthKey struct {
+	op   token.Token
+	x, y ssa.Value
+}
+
+var synthBinOps = map[synthKey]*ssa.BinOp{}
+var synthAsserts = map[synthKey]*ssa.Extract{}
+
+func synthBinOp(op token.Token, x, y ssa.Value) *ssa.BinOp {
+	k := synthKey{op, x, y}
+	if b, ok := synthBinOps[k]; ok {
+		return b
+	}
+	b := &ssa.BinOp{Op: op, X: x, Y: y}
+	synthBinOps[k] = b
+	return b
+}
+
+var complementOp = map[token.Token]token.Token{token.EQL: token.NEQ, token.NEQ: token.EQL, token.LSS: token.GEQ, token.GEQ: token.LSS, token.GTR: token.LEQ, token.LEQ: token.GTR}
+var mirrorOp = map[token.Token]token.Token{token.EQL: token.EQL, token.NEQ: token.NEQ, token.LSS: token.GTR, token.GTR: token.LSS, token.LEQ: token.GEQ, token.GEQ: token.LEQ}
+
+func deriveFacts(m map[condFact]bool) {
+	var work []condFact
+	for f := range m {
+		work = append(work, f)
+	}
+	add := func(f condFact) {
+		if !m[f] {
+			m[f] = true
+			work = append(work, f)
+		}
+	}
+	for len(work) > 0 {
+		f := work[len(work)-1]
+		work = work[:len(work)-1]
+		switch x := f.Cond.(type) {
+		case *ssa.BinOp:
+			if c, ok := complementOp[x.Op]; ok {
+				add(condFact{synthBinOp(c, x.X, x.Y), !f.Pol})
+				add(condFact{synthBinOp(mirrorOp[x.Op], x.Y, x.X), f.Pol})
+			}
+		case *ssa.Call:
+			if e := trivialBoolHelper(x); e != nil {
+				addCondFactsTo(add, e, f.Pol)
+			}
+		}
+	}
+}
+
+func addCondFactsTo(add func(condFact), cond ssa.Value, pol bool) {
+	add(condFact{cond, pol})
+	if u, ok := cond.(*ssa.UnOp); ok && u.Op == token.NOT {
+		addCondFactsTo(add, u.X, !pol)
+	}
+}
+
+// trivialBoolHelper: the call's callee is a one-expression boolean function of its parameters;
+// returns that expression over the call's arguments (synthetic), or nil.
+func trivialBoolHelper(call *ssa.Call) ssa.Value {
+	cal := call.Call.StaticCallee()
+	if cal == nil || cal.Blocks == nil || len(cal.Blocks) != 1 || cal.Pkg == nil || call.Parent() == nil || cal.Pkg != call.Parent().Pkg {
+		return nil
+	}
+	ret, ok := cal.Blocks[0].Instrs[len(cal.Blocks[0].Instrs)-1].(*ssa.Return)
+	if !ok || len(ret.Results) != 1 {
+		return nil
+	}
+	subst := func(v ssa.Value) ssa.Value {
+		for k, prm := range cal.Params {
+			if v == ssa.Value(prm) && k < len(call.Call.Args) {
+				return call.Call.Args[k]
+			}
+		}
+		return nil
+	}
+	var clone func(v ssa.Value, depth int) ssa.Value
+	clone = func(v ssa.Value, depth int) ssa.Value {
+		if depth > 4 {
+			return nil
+		}
+		if a := subst(v); a != nil {
+			return a
+		}
+		switch x := v.(type) {
+		case *ssa.Const:
+			return x
+		case *ssa.BinOp:
+			a, b := clone(x.X, depth+1), clone(x.Y, depth+1)
+			if a == nil || b == nil {
+				return nil
+			}
+			return synthBinOp(x.Op, a, b)
+		case *ssa.UnOp:
+			if x.Op == token.NOT {
+				a := clone(x.X, depth+1)
+				if a == nil {
+					return nil
+				}
+				return &ssa.UnOp{Op: token.NOT, X: a}
+			}
+			if x.Op == token.MUL {
+				if fa, ok := x.X.(*ssa.FieldAddr); ok {
+					base := clone(fa.X, depth+1)
+					if base == nil {
+						return nil
+					}
+					return &ssa.UnOp{Op: token.MUL, X: &ssa.FieldAddr{X: base, Field: fa.Field}}
+				}
+			}
+		case *ssa.Extract:
+			if ta, ok := x.Tuple.(*ssa.TypeAssert); ok && ta.CommaOk {
+				a := clone(ta.X, depth+1)
+				if a == nil {
+					return nil
+				}
+				k := synthKey{token.Token(x.Index), a, nil}
+				if e, ok := synthAsserts[k]; ok && e.Tuple.(*ssa.TypeAssert).AssertedType == ta.AssertedType {
+					return e
+				}
+				e := &ssa.Extract{Tuple: &ssa.TypeAssert{X: a, AssertedType: ta.AssertedType, CommaOk: true}, Index: x.Index}
+				synthAsserts[k] = e
+				return e
+			}
+		case *ssa.ChangeType:
+			return clone(x.X, depth+1)
+		}
+		return nil
+	}
+	return clone(ret.Results[0], 0)
 }
 
 // addCondFacts records cond==pol and what follows structurally (negation).
